@@ -23,7 +23,7 @@
 (*                        (cp.written) and release                             *)
 (*   checkpoint delete,   one step under the lock                              *)
 (*   out delete --all                                                          *)
-(*   analyze, result show readers: no lock, one instant                        *)
+(*   analyze, result show, checkpoint show readers: no lock, one instant       *)
 (*   Crash                at any hold point; the operating system releases     *)
 (*                        the lock                                             *)
 (*                                                                             *)
@@ -49,7 +49,7 @@ vars == <<repo, store, cpfile, holder, inv, nruns, nedits, actor, obs>>
 NoCpRec == [set |-> FALSE, id |-> 0, pend |-> [p \in Paths |-> -1]]
 Idle == [api |-> "none", pc |-> "idle", r |-> 0, k |-> 0, targets |-> {}, e |-> 0, ncp |-> NoCpRec]
 Mutating == {"run", "cp_update", "cp_delete", "out_delete"}
-Readers == {"analyze", "result_show"}
+Readers == {"analyze", "result_show", "cp_show"}
 Effs == Effects(TRUE)
 AllTargets == TPaths(Cfg)
 AffectedNow == IF repo.cp.set THEN AffectedLo(Cfg, { Comp[p] : p \in ChangeSet(repo, 0, 0) }) ELSE AllTargets
@@ -132,6 +132,12 @@ ResultShow(p) == /\ inv[p].pc = "start" /\ inv[p].api = "result_show"
                  /\ obs' = [k |-> "result_show", run |-> ResultShows(store, N), last |-> store.last]
                  /\ inv' = [inv EXCEPT ![p] = Idle] /\ actor' = p
                  /\ UNCHANGED <<repo, store, cpfile, holder, nruns, nedits>>
+\* `checkpoint show`: the stored checkpoint as it is at one instant; fails when there is none, and while the file is being
+\* rewritten (truncated, not yet written: the same window analyze fails in)
+CpShow(p) == /\ inv[p].pc = "start" /\ inv[p].api = "cp_show"
+             /\ obs' = IF cpfile = "torn" \/ ~repo.cp.set THEN [k |-> "cp_show_error"] ELSE [k |-> "cp_show", cp |-> repo.cp]
+             /\ inv' = [inv EXCEPT ![p] = Idle] /\ actor' = p
+             /\ UNCHANGED <<repo, store, cpfile, holder, nruns, nedits>>
 \* a mutating invocation dies: the operating system releases the lock; a torn checkpoint file stays torn
 Crash(p) == /\ inv[p].pc \in PastLock /\ Release(p) /\ actor' = p
             /\ UNCHANGED <<repo, store, cpfile, nruns, nedits, obs>>
@@ -141,7 +147,7 @@ Next == \/ \E p \in Paths, c \in 1..2 : EnvEdit(p, c)
         \/ \E p \in Procs : \/ \E api \in Mutating \cup Readers : Start(p, api)
                             \/ TryLock(p) \/ RunChoose(p) \/ RunEffect(p) \/ RunReadRepo(p)
                             \/ CpRead(p) \/ CpTruncate(p) \/ CpWrite(p)
-                            \/ CpDeleteStep(p) \/ OutDeleteStep(p) \/ Finish(p) \/ Analyze(p) \/ ResultShow(p) \/ Crash(p)
+                            \/ CpDeleteStep(p) \/ OutDeleteStep(p) \/ Finish(p) \/ Analyze(p) \/ ResultShow(p) \/ CpShow(p) \/ Crash(p)
 Spec == Init /\ [][Next]_vars
 
 \* ---- obligations
@@ -151,6 +157,8 @@ HolderIsPastLock == \A p \in Procs : inv[p].pc \in PastLock <=> holder = p
 ResultShowNeverTorn == obs.k = "result_show" => obs.run = obs.last
 RunCoversAffected == obs.k = "run_read" => obs.targets = obs.want
 AnalyzeNeverMixes == obs.k = "analyze" => (obs.cp.set => obs.cp.id \in 1..Len(repo.commits))
+\* `checkpoint show` answers with a checkpoint some update wrote (never a half-written one, never one that was deleted)
+CpShowNeverMixes == obs.k = "cp_show" => (obs.cp.set /\ obs.cp.id \in 1..Len(repo.commits))
 \* the checkpoint written is a snapshot some instant of the repository justified: its id is a commit that existed
 \* and every recorded pending content is one the path really had
 CheckpointIsSnapshot == obs.k = "cp_written" => (obs.cp.set /\ obs.cp.id \in 1..Len(repo.commits))
